@@ -372,7 +372,19 @@ func (x *Exec) symValue(st *State, t types.Type, name string) Value {
 		return &Func{abs: &AbsFun{name: sanitize(name), sig: u}}
 	case *types.Slice:
 		c := newCell(name, types.NewArray(u.Elem(), -1))
-		st.store[c] = &SymArr{elem: u.Elem(), name: sanitize(name)}
+		an := sanitize(name)
+		if !x.noModular {
+			// two unknown slices must never share their contents because they share a name hint
+			// (two calls of one summarised or external function on a path): the contents of a
+			// symbolic array are an uninterpreted function named after it
+			k := "symarrname$" + an
+			n := freshCtr[k]
+			freshCtr[k] = n + 1
+			if n > 0 {
+				an = fmt.Sprintf("%s_n%d", an, n)
+			}
+		}
+		st.store[c] = &SymArr{elem: u.Elem(), name: an}
 		ln := freshVar(name+"$len", SInt)
 		st.axiom(mkLe(mkInt(0), ln))
 		cp := freshVar(name+"$cap", SInt)
